@@ -430,6 +430,96 @@ fn run_property(o: &Opts, out: &mut dyn Write) -> i32 {
         }
     }
 
+    if prop == "C02" && o.tier == "thorough" && std::env::var("VERIF_NO_W16X").is_err() {
+        // exhaustive 16-bit cores: every HL x DE x carry (2^33 cases per instruction), one hash per H
+        let mut jobs: Vec<(usize, u8)> = vec![];
+        for (si, sw) in sweeps::SWEEPS.iter().enumerate() {
+            if sw.kind == "w16" {
+                for b in 0..=255u8 {
+                    jobs.push((si, b));
+                }
+            }
+        }
+        let nthreads = o.threads.max(1);
+        let results = std::sync::Mutex::new(Vec::new());
+        std::thread::scope(|s| {
+            for t in 0..nthreads {
+                let jobs = &jobs;
+                let results = &results;
+                let drv = &o.drv;
+                s.spawn(move || {
+                    let mine: Vec<(usize, u8)> = jobs.iter().copied().skip(t).step_by(nthreads).collect();
+                    if mine.is_empty() {
+                        return;
+                    }
+                    let input: String = mine.iter().map(|(si, b)| format!("SWX {} {:02X}\n", sweeps::SWEEPS[*si].name, b)).collect();
+                    let model = run_driver(drv, input);
+                    let mut outv = vec![];
+                    for (j, (si, b)) in mine.iter().enumerate() {
+                        let imp = sweeps::imp_block16x(&sweeps::SWEEPS[*si], *b, None);
+                        outv.push((*si, *b, imp, model.get(j).cloned().unwrap_or_default()));
+                    }
+                    results.lock().unwrap().extend(outv);
+                });
+            }
+        });
+        let mut bad: Vec<(usize, u8)> = vec![];
+        let mut per: BTreeMap<&str, u64> = BTreeMap::new();
+        for (si, b, imp, m) in results.into_inner().unwrap() {
+            *per.entry(sweeps::SWEEPS[si].name).or_insert(0) += 1 << 25;
+            sweep_evals += 1 << 25;
+            let ok = match &imp {
+                Ok(h) => format!("H {:016X}", h) == m,
+                Err(_) => false,
+            };
+            if !ok {
+                bad.push((si, b));
+            }
+        }
+        for (name, evals) in &per {
+            sweep_info.push(format!("{} exhaustive: every HL, DE and carry, {} cases", name, evals));
+        }
+        bad.sort();
+        for (si, hh) in bad.iter().take(2) {
+            let sw = &sweeps::SWEEPS[*si];
+            // narrow to one L, then expand
+            let input: String = (0..=255u8).map(|l| format!("SWX {} {:02X} {:02X}\n", sw.name, hh, l)).collect();
+            let model = run_driver(&o.drv, input);
+            let mut found = false;
+            for l in 0..=255u8 {
+                let imp = sweeps::imp_block16x(sw, *hh, Some(l));
+                let ok = match &imp {
+                    Ok(h) => Some(&format!("H {:016X}", h)) == model.get(l as usize),
+                    Err(_) => false,
+                };
+                if !ok {
+                    let mut cs = sweeps::expand_block16x(sw, *hh, l);
+                    for c in cs.iter_mut() {
+                        c.key = format!("sweep:{}", sw.name);
+                    }
+                    let st = run_cases(&o.drv, &o.tmp, cs, o.threads);
+                    found = st.mismatch_count > 0;
+                    total.merge(st);
+                    break;
+                }
+            }
+            if !found {
+                total.mismatch_count += 1;
+                total.mismatches.push(Mismatch {
+                    tag: format!("sweep:{}", sw.name),
+                    key: format!("sweep:{}", sw.name),
+                    script: format!("SWX {} {:02X}", sw.name, hh),
+                    line_no: 0,
+                    cmd: "SWX".into(),
+                    imp: "hash differs".into(),
+                    model: "hash differs".into(),
+                    what: "no-failing-input-found".into(),
+                    oracle: false,
+                });
+            }
+        }
+    }
+
     // classify
     let known = load_known(&o.known);
     std::fs::create_dir_all(&o.replay_dir).ok();
